@@ -1,0 +1,18 @@
+// +build verif
+
+package server
+
+import (
+	"github.com/pingcap/kvproto/pkg/pdpb"
+	"go.etcd.io/etcd/clientv3"
+)
+
+// VerifInitOrGetClusterID exports initOrGetClusterID for the verification harness.
+func VerifInitOrGetClusterID(c *clientv3.Client, key string) (uint64, error) {
+	return initOrGetClusterID(c, key)
+}
+
+// VerifCheckBootstrapRequest exports checkBootstrapRequest for the verification harness.
+func VerifCheckBootstrapRequest(clusterID uint64, req *pdpb.BootstrapRequest) error {
+	return checkBootstrapRequest(clusterID, req)
+}
